@@ -519,6 +519,42 @@ func registerLibIntrinsics(p *Program) {
 	p.reg("bytes.Equal", func(ex *Exec, fr *Frame, args []Value) Value {
 		return ex.strEq(valTerms(args[0].([]Value)), valTerms(args[1].([]Value)))
 	})
+	// bytes.EqualFold / strings.EqualFold: exact on operands made of ASCII bytes
+	// only (simple case folding of A-Z); anything else is left to the real code
+	// when they are concrete (UTF-8 decoding and the Unicode tables explode on
+	// symbolic bytes: that side ends the path as unsupported).
+	equalFold := func(ex *Exec, a, b []*Term) Value {
+		ascii := tTrue
+		for _, t := range append(append([]*Term{}, a...), b...) {
+			ascii = mkAnd(ascii, mkCmp(OpULt, t, byteConst(0x80)))
+		}
+		if !ex.branch(ascii, "equalfold-ascii") {
+			if _, ok := concTerms(a); ok {
+				if _, ok := concTerms(b); ok {
+					return fallThrough{} // concrete operands: the real code
+				}
+			}
+			ex.unsupported("EqualFold on symbolic bytes that may be non-ASCII")
+		}
+		if len(a) != len(b) {
+			return tFalse
+		}
+		lower := func(t *Term) *Term {
+			up := mkAnd(mkCmp(OpULe, byteConst('A'), t), mkCmp(OpULe, t, byteConst('Z')))
+			return mkIte(up, mkBin(OpAdd, t, byteConst(32)), t)
+		}
+		eq := tTrue
+		for i := range a {
+			eq = mkAnd(eq, mkEq(lower(a[i]), lower(b[i])))
+		}
+		return eq
+	}
+	p.reg("bytes.EqualFold", func(ex *Exec, fr *Frame, args []Value) Value {
+		return equalFold(ex, valTerms(args[0].([]Value)), valTerms(args[1].([]Value)))
+	})
+	p.reg("strings.EqualFold", func(ex *Exec, fr *Frame, args []Value) Value {
+		return equalFold(ex, strBytes(args[0]), strBytes(args[1]))
+	})
 	p.reg("internal/bytealg.Compare", func(ex *Exec, fr *Frame, args []Value) Value {
 		a, b := valTerms(args[0].([]Value)), valTerms(args[1].([]Value))
 		lt, eq := ex.strCompare(a, b)
